@@ -79,7 +79,6 @@ func (h *smHarness) callback(kind, act int, ops []uint8) func(*T) {
 var alphaAction = []uint8{opReturn, opDrawBool, opSkip, opFatalA, opErrorf, opPanicStr}
 var alphaInvariant = []uint8{opReturn, opFatalA, opErrorf}
 
-
 func H_C08_repeat() {
 	h := &smHarness{}
 	nact := 1 + choose("nact", 2)
